@@ -75,7 +75,20 @@ type asTick struct {
 type evA struct{ ID int }
 type evB struct{ ID int }
 
-var asEventTypes = map[string]any{"A": evA{}, "B": evB{}}
+// Two distinct event types that print the same name ("checks.evL"): types declared inside functions, as same-named types
+// of two packages would be.
+func evLocalC(id int) any {
+	type evL struct{ ID int }
+	return evL{ID: id}
+}
+func evLocalD(id int) any {
+	type evL struct{ ID int }
+	return evL{ID: id}
+}
+
+var evTypeC, evTypeD = reflect.TypeOf(evLocalC(0)), reflect.TypeOf(evLocalD(0))
+
+var asEventTypes = map[string]any{"A": evA{}, "B": evB{}, "C": evLocalC(0), "D": evLocalD(0)}
 
 var asDefaults = map[string]any{"e": "", "a": "", "k": "", "m": 0, "p": "", "v": 0, "s": "", "d": "", "n": 0, "i": 0}
 
@@ -302,6 +315,13 @@ func (a *scriptActor) handle(ctx vivid.ActorContext, depth int) {
 		x.ev(map[string]any{"e": "Deliv", "a": a.name, "k": "event", "m": m.ID, "i": a.inst, "s": "A"})
 	case evB:
 		x.ev(map[string]any{"e": "Deliv", "a": a.name, "k": "event", "m": m.ID, "i": a.inst, "s": "B"})
+	default:
+		switch reflect.TypeOf(m) {
+		case evTypeC:
+			x.ev(map[string]any{"e": "Deliv", "a": a.name, "k": "event", "m": int(reflect.ValueOf(m).Field(0).Int()), "i": a.inst, "s": "C"})
+		case evTypeD:
+			x.ev(map[string]any{"e": "Deliv", "a": a.name, "k": "event", "m": int(reflect.ValueOf(m).Field(0).Int()), "i": a.inst, "s": "D"})
+		}
 	}
 }
 
@@ -421,9 +441,14 @@ func (a *scriptActor) doOp(ctx vivid.ActorContext, m umsg) {
 	case "pub":
 		id := x.newID()
 		x.ev(map[string]any{"e": "Pub", "a": a.name, "m": id, "s": m.Arg})
-		if m.Arg == "A" {
+		switch m.Arg {
+		case "A":
 			ctx.EventStream().Publish(ctx, evA{ID: id})
-		} else {
+		case "C":
+			ctx.EventStream().Publish(ctx, evLocalC(id))
+		case "D":
+			ctx.EventStream().Publish(ctx, evLocalD(id))
+		default:
 			ctx.EventStream().Publish(ctx, evB{ID: id})
 		}
 	}
